@@ -190,15 +190,15 @@ def check_C05():
         keep += [r for r in rows if r["cfg"]["fam"] == "float" and r["cfg"]["traits"] and r["cfg"]["vis"] == "" and r["cfg"]["validated"] and r not in keep][:2]
         rest = [r for r in rows if r not in keep]
         rows = keep + rng.sample(rest, 30)
-    # generic twins (the `any` family with a type parameter): the new_unchecked flag on a generic type is `dontcare`
-    # for acceptance (it does not compile on the pinned code), so its control may fail; IF it compiles, the attacks must not
+    # generic twins (the `any` family with a type parameter); new_unchecked on a generic type compiles since fix bd1c247,
+    # so its positive control is as strict as the others
     for nu in (False, True):
         for validated in (False, True):
             rows.append({"cfg": {"fam": "any", "validated": validated, "traits": ["AsRef", "Deref", "Borrow"], "new_unchecked": nu, "vis": "pub(crate)",
                                  "const_fn": False, "generic": True},
                          "attacks": ["tuple_ctor", "field_write", "deref_assign", "push_through_deref", "call_sanitize", "hidden_module_ctor", "for_in_mut"]
                                     + (["new_unchecked_without_unsafe"] if nu else ["new_unchecked_without_flag"]),
-                         "control_may_fail": nu})
+                         "control_may_fail": False})
     # ---------------- (C) attack catalogue
     files, meta = {}, {}
     for ci, row in enumerate(rows):
